@@ -31,7 +31,12 @@ struct hash_node {
 	struct qb_list_head list;
 	void *value;
 	const char *key;
+	/* one reference for being in the map, one for each iterator
+	   positioned on the node */
 	uint32_t refcount;
+	/* removed from the map, but kept linked until the last iterator
+	   positioned on it has moved on (or was freed) */
+	int32_t removed;
 	struct qb_list_head notifier_head;
 };
 
@@ -98,7 +103,8 @@ hashtable_lookup(struct hash_table *t, const char *key)
 	qb_list_for_each(list, &t->hash_buckets[hash_entry].list_head) {
 
 		hash_node = qb_list_entry(list, struct hash_node, list);
-		if (strcmp(hash_node->key, key) == 0) {
+		if (!hash_node->removed &&
+		    strcmp(hash_node->key, key) == 0) {
 			return hash_node;
 		}
 	}
@@ -162,7 +168,9 @@ hashtable_rm_with_hash(struct qb_map *map, const char *key, uint32_t hash_entry)
 	                      &hash_table->hash_buckets[hash_entry].list_head) {
 
 		hash_node = qb_list_entry(list, struct hash_node, list);
-		if (strcmp(hash_node->key, key) == 0) {
+		if (!hash_node->removed &&
+		    strcmp(hash_node->key, key) == 0) {
+			hash_node->removed = QB_TRUE;
 			hashtable_node_deref(map, hash_node);
 			hash_table->count--;
 			return QB_TRUE;
@@ -196,7 +204,8 @@ hashtable_put(struct qb_map *map, const char *key, const void *value)
 	qb_list_for_each(list, &hash_table->hash_buckets[hash_entry].list_head) {
 
 		node_try = qb_list_entry(list, struct hash_node, list);
-		if (strcmp(node_try->key, key) == 0) {
+		if (!node_try->removed &&
+		    strcmp(node_try->key, key) == 0) {
 			hash_node = node_try;
 			break;
 		}
@@ -415,7 +424,7 @@ hashtable_iter_next(qb_map_iter_t * it, void **value)
 		hash_node = qb_list_first_entry(ln, struct hash_node, list);
 		qb_list_for_each_entry_from(hash_node,
 		                &hash_table->hash_buckets[b].list_head, list) {
-			if (hash_node->refcount > 0) {
+			if (!hash_node->removed) {
 				found = QB_TRUE;
 				hash_node->refcount++;
 				hi->bucket = b;
@@ -429,6 +438,7 @@ hashtable_iter_next(qb_map_iter_t * it, void **value)
 		hashtable_node_deref(hi->i.m, hi->node);
 	}
 	if (!found) {
+		hi->node = NULL;
 		return NULL;
 	}
 	hi->node = hash_node;
@@ -438,6 +448,13 @@ hashtable_iter_next(qb_map_iter_t * it, void **value)
 static void
 hashtable_iter_free(qb_map_iter_t * i)
 {
+	struct hashtable_iter *hi = (struct hashtable_iter *)i;
+
+	if (hi->node) {
+		/* freed before getting to the end: drop the reference
+		 * held on the current node */
+		hashtable_node_deref(hi->i.m, hi->node);
+	}
 	free(i);
 }
 
@@ -474,8 +491,13 @@ hashtable_node_deref_under_bucket(struct qb_map *map, int32_t hash_entry)
 	qb_list_for_each_safe(pos, next,
 			      &hash_table->hash_buckets[hash_entry].list_head) {
 		hash_node = qb_list_entry(pos, struct hash_node, list);
-		hashtable_node_deref(map, hash_node);
+		if (hash_node->removed) {
+			/* only referenced by an iterator by now */
+			continue;
+		}
+		hash_node->removed = QB_TRUE;
 		hash_table->count--;
+		hashtable_node_deref(map, hash_node);
 	}
 }
 
